@@ -116,6 +116,21 @@ func (g *gen) good(tm *typeModel) map[string]any {
 				g.nullKey(rep, tm.Keys[g.rng.Intn(ki)])
 				g.fillKey(rep, tm.Keys[ki])
 			}
+		case 2: // the parent object of an earlier nested key is there, its leaf is not (or it is null)
+			if ki > 0 {
+				for _, ek := range tm.Keys[:ki] {
+					for _, f := range ek.Fields {
+						if len(f.Path) > 1 {
+							if g.rng.Intn(2) == 0 {
+								rep[f.Path[0]] = map[string]any{}
+							} else {
+								rep[f.Path[0]] = nil
+							}
+						}
+					}
+				}
+				g.fillKey(rep, tm.Keys[ki])
+			}
 		}
 	}
 	g.addRequires(rep, tm)
